@@ -2,6 +2,8 @@
 COMMON_MODELLED = ["the C code itself is not verified: its link to the Lean model is the sampled correspondence (tpmdrv vs tpmmodel) plus the regenerated Gen/*.lean"]
 PROPS = {
     "C16": {
+        "claimed": True,
+        "level_text": "Lean 4 theorems over Model.Clock for all histories/host-clock behaviours (TimerRead monotone and rate-exact, resume absorbs host regressions, ClockSet forward only, counter laws, safe laws; run_inv by induction over arbitrary op lists); the clause 'safe NO until Clock passes its previous value' is proved only under a lag hypothesis and its failure for the code as-is is a theorem + known finding F. Model tied to the code by regenerated constants and by trace correspondence under a virtual clock.",
         "shards": {"quick": 4, "thorough": 16},
         "timeout": {"quick": 600, "thorough": 3000},
         "rule": "evaluation = one TPM command (ReadClock/ClockSet/ClockRateAdjust/Startup/Shutdown/ClearControl/GetCapability) or restart/suspend/resume event replayed through Model.Clock; distinct_nontrivial = distinct (op, rc, stored?, safe) model outcomes + restart/resume host-clock classes hit",
@@ -9,5 +11,16 @@ PROPS = {
                     "monotonicity theorems carry explicit no-64-bit-overflow hypotheses (2^64 ms)"],
         "modelled": COMMON_MODELLED + ["Clock.c, Time.c, ClockCommands.c, counter part of TPM2_Startup/Shutdown, VolatileState v4 clock tail: modelled by hand in Model/Clock.lean; constants generated"],
         "assumptions": ["host CLOCK_MONOTONIC does not go backwards within one run (arbitrary across suspend/resume)", "virtual clock via -Dclock_gettime redirect on Clock.c"],
+    },
+    "C17": {
+        "claimed": True,
+        "level_text": "Lean 4 theorems over a complete transcription of TpmFailureMode: for ALL request byte strings the failure-mode answer is well-formed, is the bare TPM_RC_FAILURE header unless the command is GetTestResult/GetCapability(TPM_PROPERTIES), reports the recorded failure, and the failure-mode step changes no state and writes no storage (sticky by induction over command lists). Correspondence: thousands of requests to a real TPM driven into failure mode by storage faults, byte-for-byte, incl. through suspend/resume; forked oracles for failures outside command processing (stale jump buffer guard).",
+        "shards": {"quick": 4, "thorough": 16},
+        "timeout": {"quick": 600, "thorough": 3000},
+        "rule": "evaluation = one command sent to a TPM in failure mode (response compared byte-for-byte with Model.FailMode.respond) ; distinct_nontrivial = distinct (request kind, response length, rc) classes + entry routes, API calls and forked oracles hit",
+        "partial": ["'no failure outside command processing': not a theorem; explored by forked oracles (TPM_IO_Hash_* before MainInit / after Terminate / in failure mode, SetState garbage) with the longjmp guard",
+                    "entry routes explored: refused commit at ClearControl / Shutdown (single and sticky fault); failure mode carried through suspend/resume"],
+        "modelled": COMMON_MODELLED + ["TpmFail.c:TpmFailureMode transcribed completely in Model/FailMode.lean; platform constants generated"],
+        "assumptions": ["RunCommand.c built with -Dlongjmp=verif_longjmp so a jump requested outside TPMLIB_Process is observable"],
     },
 }
